@@ -118,9 +118,14 @@ def isParaNode (n : DNode) : Bool := n.isNode && n.kind == .PARAGRAPH
 def paraPositions (kids : List DNode) : List Nat :=
   ((kids.zip (List.range kids.length)).filter fun ci => isParaNode ci.1).map (·.2)
 
-/-- `convert_index` (lossless.rs:457-472) -/
-def convertIndex (kids : List DNode) (index : Nat) : Option Nat :=
-  (paraPositions kids)[index]?
+/-- `convert_index` (lossless.rs:457-472): child position of the `index`-th PARAGRAPH -/
+def convertIndexAux : List DNode → Nat → Nat → Option Nat
+  | [], _, _ => none
+  | c :: cs, idx, off =>
+    if isParaNode c then (if idx = 0 then some off else convertIndexAux cs (idx - 1) (off + 1))
+    else convertIndexAux cs idx (off + 1)
+
+def convertIndex (kids : List DNode) (index : Nat) : Option Nat := convertIndexAux kids index 0
 
 /-- shift handles for an insertion of `n` children at position `at_` -/
 def shiftIns (hs : List (Option Nat)) (at_ n : Nat) : List (Option Nat) :=
